@@ -198,7 +198,7 @@ def run(ctx: core.Ctx):
         fam = rng.choice([["c1", "c2"], ["up", "dn"], ["tri"], ["c1", "c2", "c1"]])
         m = rng.randint(1, 5)
         tiny = i % 3 == 0
-        ds = [(rng.choice([1e-9, 2e-9, 1e-12, 3e-7, 0.0]) if tiny else rng.choice([rng.random(), rng.random(), 0.0, 1.0])) for _ in range(m)]
+        ds = [(rng.choice([1e-9, 2e-9, 1e-12, 3e-7, 0.0, 1e-17, 3e-17, 1e-100, 1e-300]) if tiny else rng.choice([rng.random(), rng.random(), 0.0, 1.0])) for _ in range(m)]
         c = {"acts": [{"t": rng.choice(fam), "d": from_number(d)} for d in ds], "aggr": rng.choice(["none", "Maximum", "AlgebraicSum", "BoundedSum"]),
              "type": rng.choice(["Automatic", "Automatic", "TakagiSugeno", "Tsukamoto"]), "cls": rng.choice(["WeightedAverage", "WeightedSum"])}
         k, v = pyref.weighted(c["cls"], c["type"], [(a["t"], F(d)) for a, d in zip(c["acts"], ds)], c["aggr"], tv, tz, KIND.get)
